@@ -231,6 +231,18 @@ CHECKS = {
              'get_line_confidence and the line cropper are stubs with symbolic results (C05 / C16 / C10); the lxml stub (escaping outside); '
              'word box positions are not claimed, only their integrality.',
         design='4/C06'),
+    'C10': dict(
+        text='ONLY the arithmetic clauses of the property that live in the repository\'s own code: (1) "the pixels are the same whether the line '
+             'lies wholly inside the page or not": bounded symbolic execution of the real EngineLineCropper.fast_remap with 1..3 sample points of '
+             'symbolic real coordinates on a page of symbolic size, cv2.remap modelled as a bilinear sampler over an uninterpreted pixel '
+             'function with a constant-0 border and numpy slicing with its clipping / negative-index semantics: z3 decides that, whichever '
+             'branch is taken, every sample reads the same four pixels with the same weights as on the whole page (so a fast path taken '
+             'for a band that leaves the page, a sub-image one pixel short or a shifted origin is a counterexample); (2) the fallback: '
+             'crop() turns a failing get_crop_inputs into a blank crop of the configured height, never an error.  The geometric clauses '
+             '(width, uniform columns, perpendicular rows, every non-degenerate baseline is cropped) are NOT claimed (DESIGN.md 7.6).',
+        note='Trusted: z3 (linear arithmetic with floor + uninterpreted functions); the OpenCV INTER_LINEAR / BORDER_CONSTANT contract (fixed-point '
+             'weights outside); witness replay uses the real cv2 on a random image.',
+        design='4/C10, 7.6'),
 }
 
 NOT_APPLICABLE = {
